@@ -697,18 +697,22 @@ impl<'a, E: EndiannessRead, V: EncodingVersion> XTypesDeserializer<'a, E, V> {
             Ok(sequence)
         }
 
-        // the announced length sizes the allocations and bounds the loops below: a sequence
-        // cannot have more elements than there are bytes left in the buffer
-        if length > self.reader.buffer.len().saturating_sub(self.reader.pos) {
-            return Err(XTypesError::NotEnoughData);
-        }
-
         let element_type = member
             .descriptor
             .r#type
             .descriptor
             .element_type
             .ok_or(XTypesError::InvalidType)?;
+        // the announced length sizes the allocations and bounds the loops below: a sequence
+        // cannot have more elements than there are bytes left in the buffer, unless its
+        // elements occupy no bytes at all (structures without members)
+        let is_empty_element = matches!(element_type.get_kind(), TypeKind::STRUCTURE)
+            && element_type.get_member_count() == 0;
+        if !is_empty_element
+            && length > self.reader.buffer.len().saturating_sub(self.reader.pos)
+        {
+            return Err(XTypesError::NotEnoughData);
+        }
         match element_type.get_kind() {
             TypeKind::NONE => todo!(),
             TypeKind::BOOLEAN => dynamic_data.set_boolean_values(
